@@ -228,8 +228,8 @@ func corrKube(seed uint64, n int, tier string, out string, replay string) {
 	m := StartModel()
 	defer m.Close()
 	rep := NewReport("C02", "kube", seed, "case = history of 2-6 operations (install / upgrade / rollback / uninstall, with take-ownership, force, dry-run variants) over manifests of 0-3 resources (typed ConfigMaps and the unstructured test kind; data, labels, keep / other resource-policy annotations) against the simulated API server behind the real kube.Client, interleaved with out-of-band edits (change / add / delete a field, toggle the keep annotation, delete an object), pre-existing objects in six ownership states, and bystanders; after every operation the object store and the multiset of mutating requests are compared with the Lean cluster model, and the property monitors (targets present with the manifest's fields, removed ones deleted unless kept live, bystanders untouched, stamping, deletes confined) run on the implementation's store and request log; non-trivial = at least 2 operations changed the cluster; distinct = hash of the history")
-	for i := 0; i < n; i++ {
-		kubeHistory(m, rep, NewRng(seed, uint64(i)), seed, i)
+	for _, id := range caseSeq("kube", seed, n) {
+		kubeHistory(m, rep, NewRng(id.Seed, uint64(id.Index)), id.Seed, id.Index)
 	}
 	rep.Write(out, m)
 }
@@ -449,6 +449,9 @@ func kubeHistory(m *Model, rep *Report, r *Rng, seed uint64, idx int) {
 		}
 		if err != nil && !st.DryRun && (st.Kind == "install" || st.Kind == "upgrade") && strings.Contains(err.Error(), "cannot be imported into the current release") {
 			// C07: refused before anything changed
+			if len(w.writes) > 0 {
+				rep.Issue(Issue{Kind: "monitor", Fingerprint: "C07:refusal-after-storage-write", What: "the operation refused an unowned resource but had already written to release storage", Case: cs, Impl: w.writes, Seed: seed, Index: idx})
+			}
 			if len(muts) > 0 || canonImplObjs(before) != canonImplObjs(after) {
 				rep.Issue(Issue{Kind: "monitor", Fingerprint: "C07:refusal-after-mutation", What: "the operation refused an unowned resource but had already changed the cluster", Case: cs, Impl: muts, Seed: seed, Index: idx})
 			}
